@@ -186,7 +186,8 @@ pub fn check<I: Probes>(vt: &'static Vt<I>, ctx: &Ctx) -> DeclReport {
                     Ok(sb) if sb == *n => {}
                     _ => push(&mut rep, format!("{base}|bound-not-stated"), json!({"variant_index": ix, "message": text, "declared_bound": n}), format!("message states bound {n}"), format!("states {tok:?}")),
                 }
-                for len in n.saturating_sub(2)..=n + 2 {
+                // (a bound like usize::MAX has no neighbourhood that fits in memory)
+                for len in n.saturating_sub(2)..=if *n > 4096 { 0 } else { n + 2 } {
                     probes_n += 1;
                     // multi-byte fill: char count and byte count differ
                     let s = I::from_string_(["ß", "日", "😀"][len % 3].repeat(len));
